@@ -108,6 +108,10 @@ c.ensures('only-patterns-that-can-match-are-compiled', 'result is True ==> all_p
 # ---- assignment / definitions
 c = method('_assignment', 'ASSIGN', serves=('C06', 'C01', 'C03'))
 c.ensures('value-into-the-variable', "result is True ==> len(emitted(self)) == 1 and is_seg(emitted(self)[0], 'value')")
+c.ensures('the-variable-exists-only-after-its-first-value-was-parsed',
+          "(ghost('names_declared_before_last_phrase') is None or ghost('names_declared_before_last_phrase') == 0) "
+          "and (falsy(result) ==> len(globals_added(self)) + len(locals_added(self)) == 0) "
+          "and (result is True ==> len(globals_added(self)) + len(locals_added(self)) == 1)")
 c = method('_definition', 'DEFINE', serves=('C06', 'C01'))
 c = method('_return', 'RETURN', serves=('C06', 'C01', 'C03'))
 c.ensures('template', "result is True ==> instr(emitted(self)[-1], 'RETURN') and len(emitted(self)) == 2 and "
@@ -298,3 +302,35 @@ def _setup(b, case):
 c.setup(_setup)
 c.ensures('rejects', 'result is False')
 c.ensures('message-names-the-line', "self._error_output == old(self._error_output) + '{}\\n'.format('Line {}: {}'.format(self._current_token._line_number, message))")
+
+
+# ---- ScriptJob: what the compile returned is what the job holds: a rejected text leaves NO program to run, whatever
+#      the job compiled before (the parser is abstract here: Parser.parse is verified above)
+SJ = 'bardolph/controller/script_job.py'
+def _script_job(b, prior):
+    from pyvc.values import Opaque, PyObj, PyList
+    accepted = b.sym('bool', 'accepted')
+    prog = PyList([b.sym('int', 'some_instruction')])
+    stale = PyList([b.sym('int', 'earlier_instruction')])
+    calls = b.ghost('parser_calls', PyList())
+    def parse(I_, o, a, k):
+        calls.items.append(('parse', a[0]))
+        # the parser reuses its code generator's list: after a rejection it holds the half-compiled text
+        return True if I_.branch(accepted.t, 'accepted') else (False if I_.branch(b.sym('bool', 'false_not_none').t) else None)
+    parser = Opaque('parser', {'parse': parse, 'parse_file': parse, 'get_program': lambda I_, o, a, k: prog,
+                               'get_errors': lambda I_, o, a, k: I_.fresh('str', 'messages')})
+    sj = PyObj(b.cls('bardolph.controller.script_job', 'ScriptJob'),
+               {'_program': {'none': None, 'stale': stale}[prior], '_parser': parser, '_machine': None})
+    return sj, prog, accepted
+
+
+for meth, arg in (('load_string', 'input_string'), ('load_file', 'file_name')):
+    for prior in ('none', 'stale'):
+        c = contract(SJ, 'ScriptJob.' + meth, serves=['C06', 'C17'], name='ScriptJob.%s[earlier program: %s]' % (meth, prior))
+        def _setup(b, case, prior=prior, arg=arg):
+            sj, prog, accepted = _script_job(b, prior)
+            return {'self': sj, arg: b.sym('str', 'text'), '_prog': prog, '_accepted': accepted}
+        c.setup(_setup)
+        c.ensures('accepted-text-yields-the-compiled-program', '_accepted ==> self._program is _prog and result is _prog')
+        c.ensures('rejected-text-leaves-nothing-to-run', 'not _accepted ==> (self._program is None or len(self._program) == 0) and result is self._program')
+        c.ensures('compiles-exactly-this-text-once', "len(ghost('parser_calls')) == 1 and ghost('parser_calls')[0][1] is %s" % arg)
